@@ -226,10 +226,10 @@ class DescGen:
             elif k in ("suit-parameter-strict-order", "suit-parameter-soft-failure"):
                 p[k] = self.s.chance(0.5)
             elif k == "suit-parameter-content":
-                # byte strings that are not themselves a CBOR unsigned integer (see DESIGN D7 for those)
-                b = self.s.bytes(self.s.choice([3, 5, 16, 24, 40]))
-                if b[0] < 0x20:
-                    b = bytes([0x40 | b[0]]) + b[1:]
+                # arbitrary byte strings, biased towards ones that start like a CBOR integer / simple value (D7)
+                b = self.s.bytes(self.s.choice([2, 3, 5, 16, 24, 40]))
+                if self.s.chance(0.3):
+                    b = bytes([self.s.choice([0x00, 0x01, 0x17, 0x18, 0x19, 0x1A, 0x1B, 0xF4, 0xF5, 0xF6, 0x20, 0x38])]) + b[1:]
                 p[k] = b.hex() if self.s.chance(0.7) else self.uint()
             elif k == "suit-parameter-invoke-args":
                 a = {}
@@ -262,7 +262,8 @@ class DescGen:
                         "unprotected": {"suit-cose-algorithm-id": self.s.choice(
                             ["cose-alg-direct", "cose-alg-a128kw", "cose-alg-a256kw"]),
                             "suit-cose-key-id": kid if self.s.chance(0.6) else self.nonuint_hex()},
-                        "ciphertext": None if self.s.chance(0.5) else self.s.bytes(24).hex(),
+                        "ciphertext": None if self.s.chance(0.5) else
+                        (bytes([self.s.choice([0xF6, 0xF6, 0x00, 0xA1])]) if self.s.chance(0.2) else b"").hex() + self.s.bytes(24).hex(),
                     }
                 ],
             }
@@ -271,9 +272,9 @@ class DescGen:
         return obj
 
     def nonuint_hex(self):
-        b = self.s.bytes(self.s.choice([3, 4, 8]))
-        if b[0] < 0x40:
-            b = bytes([0x80 | b[0]]) + b[1:]
+        b = self.s.bytes(self.s.choice([2, 3, 4, 8]))
+        if self.s.chance(0.3):
+            b = bytes([self.s.choice([0x00, 0x05, 0x18, 0x19, 0x20, 0xF6])]) + b[1:]
         return b.hex()
 
     def command(self, depth):
